@@ -273,7 +273,7 @@ func schedConfigs(prop, tier string) []schedCfg {
 			db := 2
 			if len(l) == 3 {
 				db = 1
-				if thorough {
+				if thorough && cpu <= 2 {
 					db = 2
 				}
 			}
